@@ -36,7 +36,7 @@ META = {
              "outcome), (mode class, notification probe), (definition kind | value class, outcome class) "
              "and (kind, install step, outcome class) signatures."),
     "phases": [{"name": "main", "flavour": "P", "shards": 16},
-               {"name": "defs", "flavour": "S", "shards": 8}],
+               {"name": "defs", "flavour": "S", "shards": 16}],
     "gates": {
         "quick": {"evaluations": 700000, "states": 600, "copies": 4000, "batteries_completed": 4000,
                   "values_compared": 230000, "transient_checked": 15000,
